@@ -175,13 +175,16 @@ func main() {
 		for _, f := range res.Findings {
 			rep.report(k.Pool, k.Cfg, k.Mode, k.Hist, f)
 		}
+		if os.Getenv("VERIF_C19_SHOWOBS") != "" {
+			fmt.Printf("OBS %v => %s\n", k.Hist, res.Obs)
+		}
 		closeWorkers()
 		os.RemoveAll(run.WorkDir())
 		run.Finish(nil, nil)
 	}
 
 	start := time.Now()
-	budget := time.Duration(run.Pick(60, 780)) * time.Second
+	budget := time.Duration(run.Pick(420, 780)) * time.Second // a safety net in quick: the quick depths finish well inside it on an idle machine
 	stats := map[string]bfsStats{}
 	bounds := map[string]interface{}{}
 	exhaustive := true
@@ -198,7 +201,7 @@ func main() {
 			continue
 		}
 		sys := sysDef{Pool: "gemmill-mempool", Cfg: c.Name, Alphabet: mpAlphabet(c), Depth: run.Pick(5, 7), Workers: 16, MergeObs: true, MergeAlts: 1,
-			Deadline: start.Add(time.Duration(float64(budget) * map[string]float64{"A": 0.15, "B": 0.25}[c.Name])),
+			Deadline: deadlineFor(run, start, budget, map[string]float64{"A": 0.15, "B": 0.25}[c.Name]),
 			Exec: func(i int, st *stateRec, suffix []string, mode string, _ bool) *execResult {
 				return runMp(mpw[i], c, append(append([]string{}, st.hist...), suffix...), mode)
 			}}
@@ -211,7 +214,7 @@ func main() {
 	}
 
 	// ---- ethTxPool ----
-	depths := map[string]int{"A": run.Pick(5, 7), "B": run.Pick(4, 5)}
+	depths := map[string]int{"A": run.Pick(4, 7), "B": run.Pick(4, 5)}
 	share := map[string]float64{"A": 0.68, "B": 0.93}
 	for _, c := range cfgs {
 		if only != "" && only != "evm"+c.Name {
@@ -219,7 +222,7 @@ func main() {
 		}
 		ex, closeAll := evmExecFor(c)
 		sys := sysDef{Pool: "ethTxPool", Cfg: c.Name, Alphabet: evmAlphabet(c), Depth: depths[c.Name], Workers: 16, Exec: ex, MergeObs: true, MergeAlts: run.Pick(0, 1),
-			Deadline: start.Add(time.Duration(float64(budget) * share[c.Name]))}
+			Deadline: deadlineFor(run, start, budget, share[c.Name])}
 		s := explore(sys, rep)
 		closeAll()
 		stats["ethTxPool/"+c.Name] = s
@@ -310,4 +313,14 @@ func main() {
 		"no-loss is judged by draining (delayed promotion is not a drop); where the model cannot exclude that the documented capacity rule evicted a tx (pool possibly at its waiting limit) the obligation for larger-nonce txs of that account is lifted",
 		"gemmill mempool: order clause read as acceptance order (the pool cannot see accounts or nonces)",
 	})
+}
+
+// deadlineFor: in the thorough tier the systems share one budget; in the quick
+// tier the bounds are meant to be completed and every system gets the whole
+// safety net for itself.
+func deadlineFor(run *core.Run, start time.Time, budget time.Duration, share float64) time.Time {
+	if run.Quick() {
+		return time.Now().Add(budget)
+	}
+	return start.Add(time.Duration(float64(budget) * share))
 }
